@@ -1,4 +1,4 @@
-import DcmVerif.Proofs.Total
+import DcmVerif.Proofs.EndToEnd
 import DcmVerif.Props.C01_stack
 /-! Property theorems for C01. Statements only; proofs are by reference to `Proofs/`. -/
 set_option autoImplicit false
@@ -104,6 +104,38 @@ theorem convert_total_3d (null : α) (S : Nat) (hS : 0 < S) (val : Nat → Optio
       ∀ s, s < S →
         lookupKS null ⟨3, S, 1, 1, true, false, false⟩ r s 0 0 = some ((val s).getD null) :=
   Total.convert_total_3d null S hS val
+
+/-- **C01, end to end (stack model ∘ per-key merges):** the files of a complete grid, added in any
+    order, each carrying a value (or not) for a key; `to_nifti` sorts them, reverses every volume's
+    files when the voxel order flips the slice axis, and merges volume by volume, along time, along
+    the vector axis.  All of that succeeds and the summary returns at output slice `k`, time `t`,
+    vector `v` the value of the file whose pixels are there: canonical slice `k`, or `S − 1 − k`
+    when flipped. -/
+theorem convert_end_to_end (null : α) (idOf : Int → Int → Int → Nat) (vs ts ps : List Int)
+    (hv : vs.Pairwise (· < ·)) (ht : ts.Pairwise (· < ·)) (hp : ps.Pairwise (· < ·))
+    (hS : 0 < ps.length) (hT : 2 ≤ ts.length) (hV : 2 ≤ vs.length)
+    (files : List Stk.F) (hperm : files.Perm (Stk.grid idOf vs ts ps))
+    (metaOf : Nat → Option α) (flip : Bool) :
+    let S := ps.length
+    let T := ts.length
+    let V := vs.length
+    let canon := Stk.chkSort S (V * T) files
+    let order := if flip then Stk.reverseBlocks S (T * V) canon else canon
+    let valAt := fun s t v => (order[(t + T * v) * S + s]?).bind fun f => metaOf f.id
+    ∃ (vol : Nat → Nat → KeyState α) (vec : Nat → KeyState α) (r : KeyState α),
+      (∀ t v, t < T → v < V →
+        mergeSliceK null ⟨3, 1, 1, 1, true, false, false⟩
+          ((List.range S).map fun s => fileKS (valAt s t v)) = .ok (vol t v)) ∧
+      (∀ v, v < V →
+        mergeTimeK null ⟨4, S, 1, 1, true, true, false⟩ ⟨3, S, 1, 1, true, false, false⟩
+          ((List.range T).map fun t => vol t v) = .ok (vec v)) ∧
+      mergeVecK null ⟨5, S, T, 1, true, true, true⟩ ⟨4, S, T, 1, true, true, false⟩
+          ((List.range V).map vec) = .ok r ∧
+      ∀ k t v, k < S → t < T → v < V →
+        lookupKS null ⟨5, S, T, V, true, true, true⟩ r k t v =
+          some ((metaOf (idOf (vs.getD v 0) (ts.getD t 0)
+                  (ps.getD (if flip then S - 1 - k else k) 0))).getD null) :=
+  Total.convert_end_to_end null idOf vs ts ps hv ht hp hS hT hV files hperm metaOf flip
 
 end C01
 
